@@ -5,6 +5,7 @@ import (
 	"context"
 	"fmt"
 	"io"
+	"runtime"
 	"strings"
 
 	"github.com/grailbio/bigslice/sliceio"
@@ -99,6 +100,7 @@ type c07outcome struct {
 	res     driveResult
 	panicAt string
 	panicV  any
+	alloc   int64
 }
 
 func c07decode(st *c07stream, data []byte, dest []int, rnd *vf.Rand) (out c07outcome) {
@@ -108,14 +110,22 @@ func c07decode(st *c07stream, data []byte, dest []int, rnd *vf.Rand) (out c07out
 			out.panicAt = vf.PanicSite(stackNow())
 		}
 	}()
+	var m0, m1 runtime.MemStats
+	runtime.ReadMemStats(&m0)
 	r := sliceio.NewDecodingReader(bytes.NewReader(data))
 	out.res = driveReader(st.ts, r, dest, rnd, len(st.rows)*2+20)
+	runtime.ReadMemStats(&m1)
+	out.alloc = int64(m1.TotalAlloc - m0.TotalAlloc)
 	return
 }
 
 // judgeDamage applies the C07 oracle to a damaged stream. at is the first damaged byte.
 func judgeDamage(t *vf.T, st *c07stream, kind string, at int, o c07outcome, midBatch bool) {
 	role := st.role(at)
+	t.Max("max_alloc_bytes_one_damaged_decode", o.alloc)
+	if o.alloc > 1<<28 {
+		t.Count("damaged_decodes_allocating_over_256MiB", 1)
+	}
 	sig := func(outcome string) string { return fmt.Sprintf("%s %s -> %s", kind, role, outcome) }
 	if o.panicV != nil {
 		t.Violate(sig("panic:"+o.panicAt), fmt.Sprintf("%s at byte %d of %d: decoder panicked: %v", kind, at, len(st.bytes), o.panicV))
@@ -320,6 +330,13 @@ func runC07(r *vf.Runner) {
 			}
 		}
 	}
+	// regression: damaged column lengths decoded over the spare capacity of the reader's scratch
+	// buffer (rows of which alias byte slices delivered earlier) -- pointer-carrying columns, tiny destinations
+	for _, si := range []int{7, 2, 5} {
+		for k := 0; k < 4; k++ {
+			run(c07case{Kind: "burst", Schema: si, Batches: []int{40, 128, 7, 60}, Dest: []int{1}, Data: 6289351555247807603 + uint64(k), N: 400})
+		}
+	}
 	// random bursts on larger streams
 	nb := 40
 	if !r.Quick() {
@@ -329,4 +346,15 @@ func runC07(r *vf.Runner) {
 		c := c07case{Kind: "burst", Schema: rnd.Intn(len(frameSchemas)), Batches: []int{40, 128, 7, 60}, Dest: []int{rnd.Pick(1, 16, 128, 200)}, Data: rnd.Uint64(), N: 100}
 		run(c)
 	}
+}
+
+func init() {
+	// gob assigns type ids in order of first use in a process; encode one value of every schema
+	// in a fixed order at start-up so that encoded streams (and hence replays) do not depend on
+	// which cases ran earlier in the process.
+	setups = append(setups, func() {
+		for si := range frameSchemas {
+			c07encode(c07case{Schema: si, Batches: []int{1}, Data: 1})
+		}
+	})
 }
